@@ -11,6 +11,8 @@
         //@ fn exp:zvt_builder | impl Encoding<u8> for Default | decode | mod=encoding props=C02,C17 $M
         //@ end
         open spec fn self_delimiting() -> bool { true }
+        open spec fn dec_rel(b: Seq<u8>, v: &u8, k: int) -> bool { true }
+        open spec fn dec_total() -> bool { false }
         open spec fn functional() -> bool { true }
         proof fn law_dec_bounds(b: Seq<u8>) {}
         //@ tag enc.law_dec_frame.le.u8 C14
@@ -36,6 +38,8 @@
         //@ fn exp:zvt_builder | impl Encoding<u16> for Default | decode | mod=encoding props=C02,C17 $M
         //@ end
         open spec fn self_delimiting() -> bool { true }
+        open spec fn dec_rel(b: Seq<u8>, v: &u16, k: int) -> bool { true }
+        open spec fn dec_total() -> bool { false }
         open spec fn functional() -> bool { true }
         proof fn law_dec_bounds(b: Seq<u8>) {}
         //@ tag enc.law_dec_frame.le.u16 C14
@@ -61,6 +65,8 @@
         //@ fn exp:zvt_builder | impl Encoding<u32> for Default | decode | mod=encoding props=C02,C17 $M
         //@ end
         open spec fn self_delimiting() -> bool { true }
+        open spec fn dec_rel(b: Seq<u8>, v: &u32, k: int) -> bool { true }
+        open spec fn dec_total() -> bool { false }
         open spec fn functional() -> bool { true }
         proof fn law_dec_bounds(b: Seq<u8>) {}
         //@ tag enc.law_dec_frame.le.u32 C14
@@ -86,6 +92,8 @@
         //@ fn exp:zvt_builder | impl Encoding<u64> for Default | decode | mod=encoding props=C02,C17 $M
         //@ end
         open spec fn self_delimiting() -> bool { true }
+        open spec fn dec_rel(b: Seq<u8>, v: &u64, k: int) -> bool { true }
+        open spec fn dec_total() -> bool { false }
         open spec fn functional() -> bool { true }
         proof fn law_dec_bounds(b: Seq<u8>) {}
         //@ tag enc.law_dec_frame.le.u64 C14
@@ -111,6 +119,8 @@
         //@ fn exp:zvt_builder | impl Encoding<usize> for Default | decode | mod=encoding props=C02,C17 $M
         //@ end
         open spec fn self_delimiting() -> bool { true }
+        open spec fn dec_rel(b: Seq<u8>, v: &usize, k: int) -> bool { true }
+        open spec fn dec_total() -> bool { false }
         open spec fn functional() -> bool { true }
         proof fn law_dec_bounds(b: Seq<u8>) {}
         //@ tag enc.law_dec_frame.le.usize C14
@@ -137,6 +147,8 @@
         //@ fn exp:zvt_builder | impl Encoding<u8> for BigEndian | decode | mod=encoding props=C02,C17 $M
         //@ end
         open spec fn self_delimiting() -> bool { true }
+        open spec fn dec_rel(b: Seq<u8>, v: &u8, k: int) -> bool { true }
+        open spec fn dec_total() -> bool { false }
         open spec fn functional() -> bool { true }
         proof fn law_dec_bounds(b: Seq<u8>) {}
         //@ tag enc.law_dec_frame.be.u8 C14
@@ -162,6 +174,8 @@
         //@ fn exp:zvt_builder | impl Encoding<u16> for BigEndian | decode | mod=encoding props=C02,C17 $M
         //@ end
         open spec fn self_delimiting() -> bool { true }
+        open spec fn dec_rel(b: Seq<u8>, v: &u16, k: int) -> bool { true }
+        open spec fn dec_total() -> bool { false }
         open spec fn functional() -> bool { true }
         proof fn law_dec_bounds(b: Seq<u8>) {}
         //@ tag enc.law_dec_frame.be.u16 C14
@@ -187,6 +201,8 @@
         //@ fn exp:zvt_builder | impl Encoding<u32> for BigEndian | decode | mod=encoding props=C02,C17 $M
         //@ end
         open spec fn self_delimiting() -> bool { true }
+        open spec fn dec_rel(b: Seq<u8>, v: &u32, k: int) -> bool { true }
+        open spec fn dec_total() -> bool { false }
         open spec fn functional() -> bool { true }
         proof fn law_dec_bounds(b: Seq<u8>) {}
         //@ tag enc.law_dec_frame.be.u32 C14
@@ -212,6 +228,8 @@
         //@ fn exp:zvt_builder | impl Encoding<u64> for BigEndian | decode | mod=encoding props=C02,C17 $M
         //@ end
         open spec fn self_delimiting() -> bool { true }
+        open spec fn dec_rel(b: Seq<u8>, v: &u64, k: int) -> bool { true }
+        open spec fn dec_total() -> bool { false }
         open spec fn functional() -> bool { true }
         proof fn law_dec_bounds(b: Seq<u8>) {}
         //@ tag enc.law_dec_frame.be.u64 C14
@@ -237,6 +255,8 @@
         //@ fn exp:zvt_builder | impl Encoding<usize> for BigEndian | decode | mod=encoding props=C02,C17 $M
         //@ end
         open spec fn self_delimiting() -> bool { true }
+        open spec fn dec_rel(b: Seq<u8>, v: &usize, k: int) -> bool { true }
+        open spec fn dec_total() -> bool { false }
         open spec fn functional() -> bool { true }
         proof fn law_dec_bounds(b: Seq<u8>) {}
         //@ tag enc.law_dec_frame.be.usize C14
